@@ -71,7 +71,18 @@ SPECIALS = ["", "\n", "\n\n\n", " ", "\t", "(", ")", "{", "}", "def f(", "def f(
             "function f(a = g(1)) { }", "f({)}", "f(}{)", "\ufeffdef f():\n  pass\n", "def f():\r\n    pass\r\n", "def f():\n\tpass\n",
             "a\\\n", "def f(a,\n", "class A:\n  def f(self):\n    pass", "f()\n{", "f(\n)\n{\n}", "void f() { /* } */ }", "void f() { // }\n}",
             "void f() { \"}\" }", "void f() { '}' }", "x = 1\n// c\n", "function f() {\n  x = 1\n// c\n}\n",
-            "def o():\n  def g():\n    async\n  def f(): pass\n  x\n", "total = 1 + \\\n"]
+            "def o():\n  def g():\n    async\n  def f(): pass\n  x\n", "total = 1 + \\\n",
+            # encoding declarations naming no usable text codec, complete and truncated
+            "# -*- coding: klingon -*-\ndef f():\n    pass\n", "#!/usr/bin/python\n# vim: set fileencoding=latin_one :\nx = 1\n",
+            "# -*- coding: ut", "# coding=hex\nvoid f() { }\n", "// -*- coding: rot13 -*-\nvoid f() { }\n",
+            "# -*- coding: utf-8 -*-\ndef f():\n    return 'é'\n",
+            # a token that begins on a line break: an unterminated triple-quoted string, backslash-newline before an empty line
+            'def f():\n    x = """abc\\\n\n', 'def f():\n    x = """abc\\\n\n\n', "def f():\n    x = '''a\\\n\n",
+            # a lone carriage return inside a function
+            "def f():\n    a = 1\r    b = 2\n    return a\n", "void f() {\n  a = 1;\r  b = 2;\n}\n",
+            # a header far to the right on its line, followed by others on the next lines
+            'var data="' + "x" * 70000 + '";function a(){return 1}\nfunction b(){\n  return 2\n}\nfunction c(){\n  return 3\n}\n',
+            'String d="' + "x" * 70000 + '"; void a(){ } \nvoid b(){\n}\n']
 
 
 def stream(rng, lang, n, seed_base):
